@@ -84,7 +84,9 @@ Local(op, bc, o) ==
          IF u < 0 \/ u >= P.nids THEN {Problem("global-index-out-of-range", o)} ELSE {}
     [] op \in {"StringLiteral", "NativeFunctionPointer"} ->
          (IF StringOK(P.data, u) THEN {} ELSE {Problem("string-operand-not-a-valid-string", o)})
-         \cup (IF u \in DataEntries(P.data, 0) THEN {} ELSE {Problem("string-operand-not-at-the-start-of-a-data-entry", o)})
+         \* where the whole data section reads as a sequence of strings, the operand is the start of one of them
+         \cup (IF -1 \in DataEntries(P.data, 0) \/ u \in DataEntries(P.data, 0) THEN {}
+               ELSE {Problem("string-operand-not-at-the-start-of-a-data-entry", o)})
     [] op \in {"FunctionPointer", "Closure"} ->
          IF \E j \in 1..Len(P.labels) : P.labels[j].h = Handle(bc, o + 1) THEN {} ELSE {Problem("function-label-missing", o)}
     [] op \in {"BeginForEach", "ForEach"} ->
@@ -109,7 +111,8 @@ Declared(c) == Cardinality({r \in regs : r.clo = c.at})
 UpvalueProblems ==
   {Problem("upvalue-index-not-declared-by-the-enclosing-closure", u.at) :
      u \in {u \in uses \cup {[at |-> r.at, idx |-> r.idx] : r \in {r \in regs : r.loc = 0}} :
-              Encl(u.at) = {} \/ u.idx >= Declared(Innermost(u.at))}}
+              \* (outside every recognised closure body the emission pattern is not the one described above: no verdict)
+              Encl(u.at) # {} /\ u.idx >= Declared(Innermost(u.at))}}
 \* whole-program conditions, evaluated when the walk has reached the end
 Final ==
   LET bc == P.bc IN
@@ -118,7 +121,6 @@ Final ==
   \cup {Problem("trace-key-not-an-instruction-start", k) : k \in {P.trace[j] : j \in 1..Len(P.trace)} \ starts}
   \cup {Problem("fallible-instruction-without-trace", s) : s \in {s \in starts : Name(bc[s + 1]) \notin Infallible} \ {P.trace[j] : j \in 1..Len(P.trace)}}
   \cup UpvalueProblems
-  \cup (IF -1 \in DataEntries(P.data, 0) THEN {Problem("data-section-is-not-a-sequence-of-strings", 0)} ELSE {})
   \cup (IF lastop = "Exit" THEN {} ELSE {Problem("does-not-end-with-exit", Len(bc))})
   \cup (IF P.nids = P.nnames THEN {} ELSE {Problem("variable-tables-differ-in-size", 0)})
   \cup {Problem("variable-id-without-name-or-wrong-back-reference", P.vars[j].id) :
